@@ -70,7 +70,15 @@ pub fn run(op: &str, args: &[String]) -> Option<String> {
                 Ok(s) => s,
                 Err(_) => return Some("ERR".into()),
             };
-            let sig = match tx.sign(&sk, flag, idx as usize, &sub, value) {
+            // optional 7th argument: ephemeral key => sign_with_k
+            let signed = match args.get(6) {
+                Some(_) => match arg_bytes(args, 6).and_then(|kb| PrivateKey::from_bytes(&kb).ok()) {
+                    Some(k) => tx.sign_with_k(&sk, &k, flag, idx as usize, &sub, value),
+                    None => return Some("BADARG".into()),
+                },
+                None => tx.sign(&sk, flag, idx as usize, &sub, value),
+            };
+            let sig = match signed {
                 Ok(s) => s,
                 Err(_) => return Some("ERR".into()),
             };
@@ -93,7 +101,16 @@ pub fn run(op: &str, args: &[String]) -> Option<String> {
                 Ok(s) => ECDSA::verify_digest(&pre, &pk, &s, SigningHash::Sha256d).unwrap_or(false),
                 Err(_) => false,
             };
-            format!("OK:{};{};{};{}", show_bytes(&pre), sigb[sigb.len() - 1], v1 as u8, v2 as u8)
+            let v3 = tx._verify(&pk, &sig, false);
+            // the same signature under another key must not verify
+            let mut other = key.clone();
+            other[31] ^= 0x01;
+            other[0] &= 0x7f;
+            let v4 = match PrivateKey::from_bytes(&other) {
+                Ok(o) => tx.verify(&PublicKey::from_private_key(&o), &sig),
+                Err(_) => false,
+            };
+            format!("OK:{};{};{};{};{};{}", show_bytes(&pre), sigb[sigb.len() - 1], v1 as u8, v2 as u8, v3 as u8, v4 as u8)
         }
         _ => return None,
     })
